@@ -73,6 +73,47 @@ def _run_one(args):
         faulthandler.cancel_dump_traceback_later()
 
 
+def _iso_child(conn, a):
+    _worker_init()
+    try:
+        conn.send(_run_one(a))
+    except BaseException as e:
+        conn.send({'harness_error': 'isolated run failed: %r' % (e,), 'idx': a[2], 'violations': [], 'stats': {}})
+    finally:
+        conn.close()
+
+
+def _run_isolated(arg_list, jobs, ctx):
+    out, live, pending = [], [], list(arg_list)
+    while pending or live:
+        while pending and len(live) < jobs:
+            a = pending.pop(0)
+            pc, cc = ctx.Pipe(duplex=False)
+            pr = ctx.Process(target=_iso_child, args=(cc, a))
+            pr.start()
+            cc.close()
+            live.append((pr, pc, a, time.time()))
+        still = []
+        for pr, pc, a, t0 in live:
+            if pc.poll(0.02):
+                try:
+                    out.append(pc.recv())
+                except EOFError:
+                    out.append({'harness_error': 'run %d crashed its interpreter (native crash)' % a[2], 'idx': a[2],
+                                'violations': [], 'stats': {}, 'crashed': True})
+                pr.join(5)
+            elif not pr.is_alive():
+                out.append({'harness_error': 'run %d crashed its interpreter (exit code %s)' % (a[2], pr.exitcode), 'idx': a[2],
+                            'violations': [], 'stats': {}, 'crashed': True})
+            elif time.time() - t0 > RUN_WALL_CAP + 30:
+                pr.kill()
+                out.append({'harness_error': 'run %d exceeded the wall cap' % a[2], 'idx': a[2], 'violations': [], 'stats': {}})
+            else:
+                still.append((pr, pc, a, t0))
+        live = still
+    return out
+
+
 def load_known():
     p = os.path.join(VERIF, 'known_findings.json')
     if not os.path.exists(p):
@@ -161,16 +202,19 @@ def run_batch(mod_name, prop, tier, seed, n_runs, cfg=None, jobs=None, wall_cap=
     ctx = mp.get_context('fork')
     args = [(mod_name, seed, i, cfg, [prop]) for i in range(n_runs)]
     done = 0
+    got = set()
+    broken = False
     with ProcessPoolExecutor(max_workers=jobs, mp_context=ctx, initializer=_worker_init) as ex:
-        futs = [ex.submit(_run_one, a) for a in args]
+        futs = {ex.submit(_run_one, a): a for a in args}
         try:
             for fu in as_completed(futs, timeout=wall_cap):
                 try:
                     r = fu.result()
-                except Exception as e:          # worker died (watchdog / crash)
-                    harness.append('worker died: %r' % (e,))
+                except Exception as e:          # worker died (watchdog / native crash in an engine): pool is broken
+                    broken = True
                     continue
                 done += 1
+                got.add(r.get('idx'))
                 if 'harness_error' in r:
                     harness.append(r['harness_error'])
                 results.append(r)
@@ -178,11 +222,20 @@ def run_batch(mod_name, prop, tier, seed, n_runs, cfg=None, jobs=None, wall_cap=
             harness.append('batch wall cap hit or pool failure: %r' % (e,))
             for fu in futs:
                 fu.cancel()
+    if broken:
+        # a native crash (e.g. an engine fed a malformed program by a broken tree) takes the whole pool down:
+        # finish the remaining runs one process per run, so that only the crashing run is lost
+        rest = [a for a in args if a[2] not in got]
+        for r in _run_isolated(rest, jobs, ctx):
+            if 'harness_error' in r:
+                harness.append(r['harness_error'])
+            results.append(r)
     results.sort(key=lambda r: r.get('idx', 0))
 
     # ---- violations: shrink, replay in a fresh interpreter, match against known findings ----------
     known = load_known()
     lines, n_viol, matched = [], 0, {}
+    unconfirmed = []
     seen_sigs = {}
     for r in results:
         for v in r.get('violations', []):
@@ -200,6 +253,19 @@ def run_batch(mod_name, prop, tier, seed, n_runs, cfg=None, jobs=None, wall_cap=
         path = write_replay(mod, case, v2, digest(v2['sig']))
         rc, out = replay_file(path, fresh=True)
         confirmed = (rc == 1)
+        if not confirmed:
+            # the minimised case does not fail alone: try the original, unshrunk case in a fresh interpreter
+            path0 = write_replay(mod, r['case'], v, digest(v['sig']) + '_unshrunk')
+            rc0, _ = replay_file(path0, fresh=True)
+            if rc0 == 1:
+                confirmed, path, v2 = True, path0, v
+        if not confirmed:
+            # a failure that cannot be reproduced from its own replay file is not reported as a violation: one seed must
+            # be one repeatable execution.  (Seen with process-global state leaking between cases of one worker.)
+            unconfirmed.append('UNCONFIRMED property=%s oracle=%s seed=%s runs=%d: did not reproduce in a fresh interpreter '
+                               '(process-global state carried over from an earlier case of the same worker, or nondeterminism): %s'
+                               % (prop, v2['oracle'], r.get('seed'), len(occ), v2.get('detail')))
+            continue
         n_viol += 1
         lines.append('VIOLATION property=%s replay=%s' % (prop, path))
         lines.append('  oracle=%s seed=%s runs_with_this_signature=%d fresh_replay_reproduced=%s'
@@ -244,6 +310,7 @@ def run_batch(mod_name, prop, tier, seed, n_runs, cfg=None, jobs=None, wall_cap=
             'components': mod.COMPONENTS,
             'known_findings_matched': matched,
             'harness_errors': len(harness),
+            'unconfirmed_failures': len(unconfirmed),
             'jobs': jobs,
         },
         'assumptions': mod.ASSUMPTIONS,
@@ -256,7 +323,7 @@ def run_batch(mod_name, prop, tier, seed, n_runs, cfg=None, jobs=None, wall_cap=
     with open(os.path.join(OUT, 'evidence', prop + '.json'), 'w') as f:
         json.dump(ev, f, indent=1, sort_keys=True, default=str)
 
-    for ln in lines:
+    for ln in lines + unconfirmed:
         print(ln)
     print('%s %s tier=%s seed=%s runs=%d wall=%.1fs violations=%d known=%s harness_errors=%d'
           % (prop, mod.NAME, tier, seed, len(results), wall, n_viol, dict(matched), len(harness)))
@@ -264,7 +331,7 @@ def run_batch(mod_name, prop, tier, seed, n_runs, cfg=None, jobs=None, wall_cap=
         print('HARNESS-ERROR (first of %d):\n%s' % (len(harness), harness[0]), file=sys.stderr)
     if n_viol:
         return 1
-    if harness or len(results) < n_runs:
+    if harness or len(results) < n_runs or unconfirmed:
         return 2
     return 0
 
